@@ -10,9 +10,9 @@ from . import crystals as cs, networks as nw
 from ..core import canon, known_ids
 
 # catalogue members with few vacancy sites per cell (cheap to build); second entry: has sites with a non-zero vector basis
-SMALL = ["SC", "FCC", "BCC", "HCP", "diamond", "B2", "B2o", "L12", "omega", "romega", "square", "tria", "honeycomb", "rect2", "tetP2", "mono2"]
+SMALL = ["SC", "FCC", "BCC", "HCP", "diamond", "B2", "B2o", "L12", "omega", "omegaB", "romega", "romegaB", "square", "tria", "honeycomb", "rect2", "tetP2", "mono2"]
 
-MULTI = ["HCP", "diamond", "B2", "omega", "romega", "honeycomb", "rect2", "tetP2", "mono2"]
+MULTI = ["HCP", "diamond", "B2", "omega", "omegaB", "romega", "honeycomb", "rect2", "tetP2", "mono2"]
 
 _calc = {}
 
@@ -53,7 +53,7 @@ def site_vector_basis(crys, chem=0):
     return any(crys.VectorBasis((chem, i))[0] > 0 for i in range(len(crys.basis[chem])))
 
 
-NO_OS = ["SC", "FCC", "BCC", "HCP", "diamond", "B2o", "L12", "omega", "square", "tria", "honeycomb"]
+NO_OS = ["SC", "FCC", "BCC", "HCP", "diamond", "B2o", "L12", "omega", "omegaB", "square", "tria", "honeycomb"]
 
 
 @st.composite
